@@ -1001,10 +1001,13 @@ impl Model {
         let passes: &[bool] = if self.prop == "C01" { &[false] } else { &[false, true] };
         for &any_qos in passes {
         // What still exists explains a forward before what has ended (an ended subscription or
-        // membership only explains what may have been on its way): plain subscriptions in
-        // force, memberships in force, ended plain subscriptions, ended memberships.
-        for stage in 0..4u8 {
-        if stage % 2 == 0 {
+        // membership only explains what may have been on its way), and a group explains it
+        // only if it owes that message to somebody: (0) plain subscriptions in force,
+        // (1) memberships in force of a group that owes it, (2) ended plain subscriptions,
+        // (3) ended memberships of a group that owes it, (4) any membership of a group the
+        // message was accepted for (a duplicate, unless excused), (5) any membership (spurious).
+        for stage in 0..6u8 {
+        if stage == 0 || stage == 2 {
         let want_active = stage == 0;
         let mut next: Vec<Vec<u32>> = vec![];
         let mut attr: Option<(u32, u32)> = None;
@@ -1080,7 +1083,12 @@ impl Model {
         // ---- forward through a shared group
         // (a membership that has ended still explains messages accepted before it ended:
         // they may sit in the member's buffer)
-        let want_ended = stage == 3;
+        // which memberships this stage looks at (None: all), and what their group must hold
+        let want_ended: Option<bool> = match stage {
+            1 => Some(false),
+            3 => Some(true),
+            _ => None,
+        };
         let newest_undelivered = self
             .gmsgs
             .iter()
@@ -1092,7 +1100,7 @@ impl Model {
             .iter()
             .filter(|s| {
                 s.group.is_some()
-                    && s.active != want_ended
+                    && want_ended.is_none_or(|e| s.active != e)
                     && (any_qos || s.serves(qos))
                     && ref_matches(topic, &s.match_filter)
                     && (s.active || newest_undelivered.is_some_and(|i| s.closed_at.is_some_and(|c| i < c)))
@@ -1104,11 +1112,14 @@ impl Model {
         let candidates: Vec<String> = cand.into_iter().map(|(_, g)| g).collect();
         // a member of several groups on one topic gets a message once per group: the
         // forward is attributed to a group that still owes this content to somebody
-        let via_group: Option<String> = candidates
-            .iter()
-            .find(|g| self.gmsgs.iter().any(|m| m.group == **g && m.delivered_to.is_empty() && self.content_is(m.idx, topic, payload)))
-            .or(candidates.first())
-            .cloned();
+        let via_group: Option<String> = match stage {
+            1 | 3 => candidates
+                .iter()
+                .find(|g| self.gmsgs.iter().any(|m| m.group == **g && m.delivered_to.is_empty() && self.content_is(m.idx, topic, payload)))
+                .cloned(),
+            4 => candidates.iter().find(|g| self.gmsgs.iter().any(|m| m.group == **g && self.content_is(m.idx, topic, payload))).cloned(),
+            _ => candidates.first().cloned(),
+        };
         if let Some(g) = via_group {
             if window_slot {
                 self.push_outstanding(ci, pkid, None);
